@@ -901,6 +901,7 @@ func Run(r *mc.Run) {
 			os.RemoveAll(fileRootDir)
 		}
 	}()
+	addBestScenario(r)
 	// the same entry points called at the same time on independent inputs: every schedule of small thread programs (instrumented build)
 	sched.Explore(r, "concurrent-calls", ConcurrentPrograms())
 
@@ -922,6 +923,13 @@ func Run(r *mc.Run) {
 func Replay(scenario string, raw json.RawMessage) []*mc.Violation {
 	if scenario == "concurrent-calls" {
 		return sched.Replay(scenario, ConcurrentPrograms(), raw)
+	}
+	if scenario == "best-checksums-accessor-histories" {
+		var in BestIn
+		if mc.UnmarshalInput(raw, &in) == nil {
+			return checkBest(scenario, in)
+		}
+		return nil
 	}
 	var in In
 	if mc.UnmarshalInput(raw, &in) != nil || kindByName(in.Kind) == nil {
